@@ -151,6 +151,7 @@ class Bench:
     def __init__(self):
         self.objs = {}
         self.prev = {}
+        self.before = {}
 
     def obj(self, rec, q, out):
         cls, _ = classes()
@@ -183,7 +184,11 @@ class Bench:
         sch = rec["sch"]
         arg, H = chan_arg(rec)
         mode = rec["k"] % 3
-        prev = self.prev.get(sch)
+        # the channel the object held before: the most recent one of this scheme that DIFFERS from the current one
+        last = self.prev.get(sch)
+        if last is not None and last["H"] != rec["H"]:
+            self.before[sch] = last
+        prev = self.before.get(sch)
         out["hist"] = None
         if mode == 0 or (mode == 2 and prev is None):
             o = cls[sch](arg)
@@ -213,6 +218,7 @@ class Bench:
             o.set_noise_var(1.0 / hist["q"] if hist["q"] else 0.0)
         self.objs[hist["sch"]] = o
         self.prev[hist["sch"]] = hist
+        self.before[hist["sch"]] = hist
 
 
 class Res:
